@@ -3,7 +3,8 @@
 Real code: `pymoca.backends.casadi.generator.generate` on generated Modelica models (scalars, vectors and
 matrices of type Real/Integer/Boolean as states, algebraic variables, inputs, parameters and constants) whose
 attributes value/min/max/start/fixed/nominal are literals (integer, real, Boolean, +-1e999), array literals,
-`zeros/ones/fill`, or affine / non-affine expressions of the parameters; observed on the `Variable` objects
+`zeros/ones/fill`, or affine / non-affine expressions of the parameters, declared directly or in a component /
+base class and (partly) overridden by a modification written in the model; observed on the `Variable` objects
 (MX attributes turned into a Function of the parameters) and through `Model.variable_metadata_function`, both
 evaluated at exact parameter vectors (small dyadic rationals; every operation of the generated expressions
 is exact in binary floating point at those points).
@@ -31,7 +32,8 @@ from harness.gen.a09 import xj, jx, show
 
 DRIVERS = ["drv_c13"]
 RULE = ("one case = one generated model (1-4 parameters, 2-6 variables over the five variable lists, scalars / vectors / "
-        "matrices, Real / Integer / Boolean) with up to six declared attributes per variable, observed at 2-3 exact "
+        "matrices, Real / Integer / Boolean; 30 % of the states/algebraics declared in a component or base class with "
+        "attribute modifications) with up to six declared attributes per variable, observed at 2-3 exact "
         "parameter vectors (one of them often 0); non-trivial = at least one attribute is an expression of a parameter or "
         "an array, or needs a type coercion; distinct = distinct model text + parameter vectors")
 TRUSTED = ["CasADi: MX construction, Function evaluation at exactly representable points, jacobian/sparsify/mtimes used by the "
@@ -190,6 +192,16 @@ def gen_decl(rng, typ, dims, attr, pars, style):
     n = numel(dims)
     r = rng.random()
     exprs_ok = typ == "Real" and attr != "fixed" and pars
+    if exprs_ok and style == "bilinear" and r < 0.2:
+        # only operations the affinity test allows (+ - * /), but a non-zero Hessian: p*(q+c), c/p
+        sc = [i for i, p in enumerate(pars) if p["type"] == "Real" and not p["dims"]]
+        if sc:
+            a = {"op": "par", "i": rng.choice(sc), "el": None}
+            b = {"op": "add", "a": {"op": "par", "i": rng.choice(sc), "el": None}, "b": gen_const(rng)}
+            divs = [i for i in sc if pars[i].get("divisor")]
+            if divs and rng.random() < 0.3:
+                return {"k": "expr", "e": {"op": "div", "a": gen_const(rng), "b": {"op": "par", "i": rng.choice(divs), "el": None}}}
+            return {"k": "expr", "e": {"op": "mul", "a": a, "b": b}}
     if exprs_ok and r < (0.45 if style != "nonaffine" else 0.6):
         want = dims[0] if len(dims) == 1 else 0
         if style == "nonaffine" and rng.random() < 0.5 or style == "mixed" and rng.random() < 0.25:
@@ -226,8 +238,8 @@ def gen_decl(rng, typ, dims, attr, pars, style):
 
 
 def gen_case(rng, stream="main"):
-    style = rng.choice(["affine", "rebuild", "rebuild", "mixed", "nonaffine", "plain"]) if stream == "main" else "affine"
-    STRICT[0] = style == "rebuild"
+    style = rng.choice(["affine", "rebuild", "rebuild", "bilinear", "mixed", "nonaffine", "plain"]) if stream == "main" else "affine"
+    STRICT[0] = style in ("rebuild", "bilinear")
     try:
         return _gen_case(rng, stream, "affine" if style == "rebuild" else style)
     finally:
@@ -283,6 +295,20 @@ def _gen_case(rng, stream, style):
             v["attrs"]["value"] = gen_decl(rng, typ, dims, "value", [], "plain")
             if v["attrs"]["value"]["k"] == "dm" and not dims:
                 v["attrs"]["value"] = {"k": "lit", "v": gen_lit(rng, typ, "value")}
+        if kind in ("state", "alg") and rng.random() < 0.3:
+            # declared in a component class or a base class; some attributes come from a modification in M
+            how = rng.choice(["comp", "ext"])
+            wrap = {"how": how, "inner": v["name"], "base": {}, "mods": []}
+            for a, d in v["attrs"].items():
+                if d["k"] in ("lit", "arr", "dm") and rng.random() < 0.5:
+                    wrap["base"][a] = d                       # declared in the class, not modified
+                else:
+                    wrap["mods"].append(a)                    # set by the modification
+                    if rng.random() < 0.5:
+                        wrap["base"][a] = {"k": "lit", "v": gen_lit(rng, typ, a)}   # ... overriding a declared one
+            v["wrap"] = wrap
+            if how == "comp":
+                v["name"] = "c_%s.%s" % (v["name"], v["name"])
         vars_.append(v)
     if stream == "array-expr":
         # an array literal whose elements are parameter expressions (findings C13-F1 / C13-F2)
@@ -396,35 +422,47 @@ def is_scalar_decl(d, pars):
     return False
 
 
+def var_decl_text(v, attrs, pars, name, with_value=True):
+    mods = mods_text(v, attrs, pars, [a for a in ("min", "max", "start", "fixed", "nominal") if a in attrs])
+    value = decl_text(attrs["value"], v["dims"], pars) if with_value and attrs.get("value") is not None else None
+    prefix = {"parameter": "parameter ", "constant": "constant ", "input": "input "}.get(v["kind"], "")
+    dims = "[%s]" % ", ".join(str(x) for x in v["dims"]) if v["dims"] else ""
+    return "  %s%s %s%s%s%s;" % (prefix, v["type"], name, dims, "(" + ", ".join(mods) + ")" if mods else "",
+                                 " = " + value if value is not None else "")
+
+
+def mods_text(v, attrs, pars, names):
+    out = []
+    for a in names:
+        d = attrs[a]
+        each = "each " if v["dims"] and is_scalar_decl(d, pars) else ""
+        out.append("%s%s = %s" % (each, a, decl_text(d, v["dims"], pars)))
+    return out
+
+
 def build_text(case):
     pars = case["vars"][:case["npar"]]
-    lines = ["model M"]
-    states = []
+    classes, lines, ext = [], [], []
     for v in case["vars"]:
-        mods = []
-        value = None
-        for a in ("min", "max", "start", "fixed", "nominal", "value"):
-            d = v["attrs"].get(a)
-            if d is None:
-                continue
-            t = decl_text(d, v["dims"], pars)
-            if a == "value":
-                value = t
+        w = v.get("wrap")
+        if w:
+            cname = ("C_" if w["how"] == "comp" else "B_") + w["inner"]
+            classes += ["model " + cname, var_decl_text(v, w["base"], pars, w["inner"]), "end %s;" % cname]
+            mods = mods_text(v, v["attrs"], pars, [a for a in ("min", "max", "start", "fixed", "nominal") if a in w["mods"]])
+            inner = "(%s(%s))" % (w["inner"], ", ".join(mods)) if mods else ""
+            if w["how"] == "comp":
+                lines.append("  %s c_%s%s;" % (cname, w["inner"], inner))
             else:
-                each = "each " if v["dims"] and is_scalar_decl(d, pars) else ""
-                mods.append("%s%s = %s" % (each, a, t))
-        prefix = {"parameter": "parameter ", "constant": "constant ", "input": "input "}.get(v["kind"], "")
-        dims = "[%s]" % ", ".join(str(x) for x in v["dims"]) if v["dims"] else ""
-        lines.append("  %s%s %s%s%s%s;" % (prefix, v["type"], v["name"], dims, "(" + ", ".join(mods) + ")" if mods else "",
-                                         " = " + value if value is not None else ""))
-        if v["kind"] == "state":
-            states.append(v)
-    lines.append("equation")
-    for v in states:
-        if not v["dims"]:
-            lines.append("  der(%s) = 1;" % v["name"])
+                ext.append("  extends %s%s;" % (cname, inner))
         else:
-            lines.append("  der(%s) = zeros(%s);" % (v["name"], ", ".join(str(x) for x in v["dims"])))
+            lines.append(var_decl_text(v, v["attrs"], pars, v["name"]))
+    lines = classes + ["model M"] + ext + lines + ["equation"]
+    for v in case["vars"]:
+        if v["kind"] == "state":
+            if not v["dims"]:
+                lines.append("  der(%s) = 1;" % v["name"])
+            else:
+                lines.append("  der(%s) = zeros(%s);" % (v["name"], ", ".join(str(x) for x in v["dims"])))
     lines.append("end M;")
     return "\n".join(lines) + "\n"
 
@@ -697,6 +735,8 @@ def stats(ctx, case):
     ctx.count("npar-%d" % case["npar"])
     for v in case["vars"]:
         ctx.count("var-%s-%s-%dd" % (v["kind"], v["type"], len(v["dims"])))
+        if v.get("wrap"):
+            ctx.count("declared-in-%s-modified-%d" % (v["wrap"]["how"], len(v["wrap"]["mods"])))
         for a, d in v["attrs"].items():
             ctx.count("decl-" + d["k"])
             if d["k"] == "expr":
@@ -725,7 +765,7 @@ def run(ctx):
     for c in corpus.load("C13"):
         ctx.count("corpus")
         check_case(ctx, c["case"] if "case" in c else c, drv)
-    plan = [("array-expr", 6 if quick else 40), ("main", 220 if quick else 3000)]
+    plan = [("array-expr", 6 if quick else 40), ("main", 450 if quick else 4000)]
     for stream, n in plan:
         for i in range(n):
             if ctx.time_left() < 0:
@@ -770,4 +810,4 @@ MANIFEST = dict(
                "exactly representable points. The theorems are about the model.",
     technique="Lean 4 proof (structural induction over expressions and variable lists) + model/implementation correspondence",
 )
-READY = False
+READY = True
